@@ -124,3 +124,20 @@ func init() {
 		return a
 	}
 }
+
+// A-DISTR: the distribution keeper's fee-pool accessors read and write the distribution module's own record; they do
+// not move coins (results unconstrained).
+func init() {
+	for _, m := range []string{"GetFeePool", "SetFeePool"} {
+		m := m
+		theory["DistrKeeper."+m] = func(x *Exec, f *Frame, st *State, c *CallInfo) Val {
+			if c.ResTyp == nil {
+				return nil
+			}
+			top := f.top()
+			n := top.callCount["foreign:"+m] + 1
+			top.callCount["foreign:"+m] = n
+			return x.foreignResult(st, c.ResTyp, m, n)
+		}
+	}
+}
